@@ -669,6 +669,7 @@ pub fn preprocess_str<T: AsRef<Path>, U: AsRef<Path>, V: BuildHasher>(
                             path.as_ref(),
                             &defines,
                             include_paths,
+                            ignore_include,
                             strip_comments,
                             resolve_depth + 1,
                             include_depth,
@@ -730,6 +731,7 @@ pub fn preprocess_str<T: AsRef<Path>, U: AsRef<Path>, V: BuildHasher>(
                     path.as_ref(),
                     &defines,
                     include_paths,
+                    ignore_include,
                     strip_comments,
                     resolve_depth + 1,
                     include_depth,
@@ -931,6 +933,7 @@ fn resolve_text_macro_usage<T: AsRef<Path>, U: AsRef<Path>>(
     path: T,
     defines: &Defines,
     include_paths: &[U],
+    ignore_include: bool,
     strip_comments: bool,
     resolve_depth: usize,
     include_depth: usize,
@@ -1029,7 +1032,7 @@ fn resolve_text_macro_usage<T: AsRef<Path>, U: AsRef<Path>>(
                 path.as_ref(),
                 &defines,
                 include_paths,
-                false,
+                ignore_include,
                 strip_comments,
                 resolve_depth,
                 include_depth,
